@@ -17,18 +17,26 @@ RULE = ("schemas built top-down to depth <= 4 with every combination of schema-l
         "form of the variable (or the default when unset / empty / opted out), an invalid variable makes the schema "
         "call raise a ValidationError naming the field's path, documents loaded afterwards (load_tree and loads in a "
         "random format, flat and nested) never override a variable but do set unbound fields, explicit assignment "
-        "does; wrongly predicted names are detected because the predicted variable is the only one set; non-trivial = "
+        "does; challenge fields without a declared default are among the families; a key may be declared twice (a draft "
+        "bound to another variable, then the final field) and the draft's variable is set: only the final declaration "
+        "counts; wrongly predicted names are detected because the predicted variable is the only one set; non-trivial = "
         ">= 1 bound field with a non-empty variable and >= 1 unbound or unset field; distinct = distinct case content")
 REQUIRED = ("assigned_sections_handed_to_a_second_configuration", "configurations_built_with_keywords_and_bound_validators", "flattened_keys_for_bound_fields_loaded", "sections_built_with_key_and_env_arguments", "upper_case_decoys_for_lower_case_names", "loads_with_undecodable_values_for_bound_fields", "variables_rejected_by_validator_callback:boom",
             "second_build_after_environment_change", "family:bytes", "style:auto", "style:getitem", "style:dotted", "list_item_bound_checked", "list_item_document_names_bound_field",
             "setting:ctype-True", "setting:ctype-named", "constructed_ok", "bound_values_checked", "unbound_defaults_checked", "invalid_variable_rejected",
             "loads_do_not_override_checked", "loads_set_unbound_checked", "assignment_overrides_checked",
             "setting:schema-auto", "setting:schema-named", "setting:schema-disabled", "setting:field-auto",
-            "setting:field-named", "setting:field-disabled", "depth>=3")
+            "setting:field-named", "setting:field-disabled", "depth>=3",
+            "family:challenge", "challenge_fields_bound_to_a_set_variable_checked", "keys_declared_twice",
+            "redeclared_keys_loaded_while_the_variable_of_the_draft_is_set",
+            "redeclared_keys_hold_the_default_while_the_variable_of_the_draft_is_set",
+            "redeclared_item_keys_loaded_while_the_variable_of_the_draft_is_set")
 ASSUMPTIONS = ["schemas are built top-down (bottom-up construction is outside the quantifier)",
                "the environment is not changed between construction and loads",
-               "list / dict / challenge fields are not generated here (known finding K7)"]
-FAMS = ["int", "port", "float", "bool", "str", "str", "host", "loglevel", "ipv4", "url", "bytes"]
+               "list / dict fields and challenge fields WITH a declared default are not generated here (known finding K7); "
+               "challenge fields without a default use the generic default hook and are generated",
+               "a key may be declared twice (a draft, then the final field): only the final declaration counts"]
+FAMS = ["int", "port", "float", "bool", "str", "str", "host", "loglevel", "ipv4", "url", "bytes", "challenge"]
 
 
 def _schema_setting(rng):
@@ -49,7 +57,8 @@ def gen_node(rng, depth, counter, used):
         f["key"] = key
         f["params"].pop("required", None)
         d = gen.normalised_default(rng, f, gen.GEN_ENV)
-        if d is not None and rng.random() < 0.6:
+        if d is not None and rng.random() < 0.6 and fam != "challenge":
+            # (a challenge field with a declared default never looks at its variable: known finding K7)
             f["params"]["default"] = d
         s = _field_setting(rng)
         if s == "named":
@@ -61,6 +70,13 @@ def gen_node(rng, depth, counter, used):
             # a field-level validator callback that rejects everything, with a ValueError or with another exception type
             f["params"]["validator"] = rng.choice(["fail", "boom"])
             f["params"].pop("default", None)
+        if rng.random() < (0.3 if s in (None, False) else 0.1):
+            # the key is declared twice: first a draft with another environment setting, then this field (which alone counts)
+            ds = weighted(rng, [(3, True), (4, "named"), (1, None)] if s is not None else [(3, True), (4, "named")])
+            if ds == "named":
+                counter[0] += 1
+                ds = rng.choice(["VFX_DRAFT_%d", "vfx_draft_%d", "VFX_DRAFT_%d"]) % counter[0]
+            f["draft"] = {"env": ds, "plain": rng.random() < 0.3}
         fields.append(f)
     if depth > 0:
         for key in keys[n:n + rng.choice([0, 1, 1, 2])]:
@@ -128,6 +144,13 @@ def draw_environ(rng, root):
                 del environ[name]
     # decoys: plausible but wrong names for fields the model says are unbound - they must have no effect
     taken = {n for _p, _nd, n in names if n}
+    # the variable that an earlier declaration of the same key (a draft, replaced since) was bound to: it has no effect on the
+    # final field, whatever that is bound to
+    for (path, node, name), dname in zip(names, draft_names(root)):
+        if dname and dname != name and dname not in taken and dname not in environ and rng.random() < 0.85:
+            v = gen.one_value(rng, node, rng.choice(["valid", "valid", "valid", "invalid"]), gen.GEN_ENV)
+            if isinstance(v, str) and v and "\x00" not in v:
+                environ[dname] = v
     # ... and the upper-case spelling of a name that has lower-case letters, while the exact variable is unset or empty
     for path, node, name in names:
         if name and name != name.upper() and not environ.get(name) and name.upper() not in taken and name.upper() not in environ:
@@ -264,6 +287,56 @@ def naming(root, crossing=None):
     return out
 
 
+def _draft_node(node):
+    """The first declaration of a key that is declared twice (node["draft"]): the same field, or a plain string field,
+    with another environment setting."""
+    d = node["draft"]
+    if d.get("plain"):
+        out = {"kind": "field", "key": node["key"], "family": "str", "params": {}}
+    else:
+        out = copy.deepcopy(node)
+        out.pop("draft")
+        out["params"].pop("validator", None)
+    if d["env"] is None:
+        out["params"].pop("env", None)
+    else:
+        out["params"]["env"] = d["env"]
+    return out
+
+
+def _map_fields(node, fn):
+    """A copy of a schema node in which the field list of every schema is rebuilt by fn(field node) -> [nodes]."""
+    node = dict(node)
+    if node["kind"] == "ctype":
+        node["schema"] = _map_fields(node["schema"], fn)
+        return node
+    out = []
+    for ch in node["fields"]:
+        if ch["kind"] in ("schema", "ctype"):
+            out.append(_map_fields(ch, fn))
+        elif ch["family"] == "list":
+            ch = dict(ch)
+            if ch.get("item") and ch["item"]["kind"] != "field":
+                ch["item"] = _map_fields(ch["item"], fn)
+            out.append(ch)
+        else:
+            out.extend(fn(ch))
+    node["fields"] = out
+    return node
+
+
+def draft_names(root):
+    """For every entry of naming(root), in the same order: the variable name of the draft declaration of that key (None when
+    the key is declared once or the draft was not bound)."""
+    drafts = naming(_map_fields(root, lambda ch: [_draft_node(ch) if ch.get("draft") else ch]))
+    return [dn if node.get("draft") else None for (_p, node, _n), (_p2, _nd2, dn) in zip(naming(root), drafts)]
+
+
+def with_drafts(root):
+    """The schema as it is BUILT: every key with a draft is declared twice, the draft first."""
+    return _map_fields(root, lambda ch: [_draft_node(ch), ch] if ch.get("draft") else [ch])
+
+
 def _settings_seen(res, root):
     def walk(node, depth):
         for ch in node["fields"]:
@@ -293,6 +366,10 @@ def _settings_seen(res, root):
             else:
                 if ch["family"] == "bytes":
                     res.count("family:bytes")
+                if ch["family"] == "challenge":
+                    res.count("family:challenge")
+                if ch.get("draft"):
+                    res.count("keys_declared_twice")
                 e = ch.get("params", {}).get("env")
                 if e is True:
                     res.count("setting:field-auto")
@@ -380,7 +457,7 @@ def run(case, ctx, res):
     if any(n and n != n.upper() and not rounds[0].get(n) and rounds[0].get(n.upper()) for _p, _nd, n in names):
         res.count("upper_case_decoys_for_lower_case_names")
     os.environ.update(rounds[0])
-    built = spec.build(cc, root)
+    built = spec.build(cc, copy.deepcopy(with_drafts(root)))
     for i, environ in enumerate(rounds):
         if i:
             for n in rounds[i - 1]:
@@ -398,6 +475,8 @@ def _round(case, ctx, res, cc, root, names, built, environ, label):
     invalid = []
     crossing = {}
     naming(root, crossing)
+    # keys declared twice whose FIRST declaration was bound to a variable that is set now (the final field is not bound to it)
+    case["drafted"] = {path for (path, _nd, name), dname in zip(names, draft_names(root)) if dname and dname != name and environ.get(dname)}
     for path, node, name in names:
         if name and environ.get(name):
             ok, norm = model.accepts(node, environ[name], env)
@@ -521,7 +600,7 @@ def _round(case, ctx, res, cc, root, names, built, environ, label):
         if v is None:
             continue
         try:
-            cfg[path] = v[0]
+            cfg[path] = spec.realize(cc, v[0])
         except Exception as exc:
             res.viol("M-env", "assignment-rejected", "assigning %r to the bound field %s raised %r" % (v[0], path, exc))
             return False
@@ -552,6 +631,12 @@ def _round(case, ctx, res, cc, root, names, built, environ, label):
     if bound and unbound:
         res.nontrivial(case["schema"], case["environ"], case["tree"])
     return True
+
+
+def _draft_note(case, path):
+    if path in case.get("drafted", ()):
+        return " (the key was declared twice: the variable of the replaced first declaration is set, the final field is not bound to it)"
+    return ""
 
 
 def _eq(a, b):
@@ -642,9 +727,11 @@ def _check_item(res, cfgobj, schema_node, tdict, tpath, shown, bound, env, stage
             ok, n = model.accepts_disk(ch, tdict[key], env)
             if ok is True:
                 res.count("list_item_loaded_checked")
+                if p in case.get("drafted", ()):
+                    res.count("redeclared_item_keys_loaded_while_the_variable_of_the_draft_is_set")
                 if model.match(n, got):
-                    res.viol("M-env", "item-load-dropped", "%s: %s is not bound to a set variable, the document gives %r, but it reads %r" % (
-                        stage, where, tdict[key], got))
+                    res.viol("M-env", "item-load-dropped", "%s: %s is not bound to a set variable, the document gives %r, but it reads %r%s" % (
+                        stage, where, tdict[key], got, _draft_note(case, p)))
                     return False
         else:
             known, dflt = model.default_of(ch, env)
@@ -671,6 +758,8 @@ def _check_values(res, cfg, names, bound, loaded, stage, case):
             res.count("bound_values_checked")
             if loaded is not None:
                 res.count("loads_do_not_override_checked")
+            if node["family"] == "challenge":
+                res.count("challenge_fields_bound_to_a_set_variable_checked")
             d = model.match(norm, got)
             if d:
                 what = "name" if loaded is None else "overridden-by-load"
@@ -682,15 +771,19 @@ def _check_values(res, cfg, names, bound, loaded, stage, case):
         parent_replaced = loaded is not None and any(path.startswith(p + ".") for p, v in loaded.items() if v == "<sub>")
         if loaded is not None and path in loaded:
             res.count("loads_set_unbound_checked")
+            if path in case.get("drafted", ()):
+                res.count("redeclared_keys_loaded_while_the_variable_of_the_draft_is_set")
             d = model.match(loaded[path], got)
             if d:
                 res.viol("M-env", "load-dropped" + (":k7" if case.get("k7") else ""), "%s: %s is not bound to a set variable, the document "
-                         "gives %r, but it reads %r" % (stage, path, loaded[path], got))
+                         "gives %r, but it reads %r%s" % (stage, path, loaded[path], got, _draft_note(case, path)))
                 return False
             continue
         if loaded is None or parent_replaced:
             known, dflt = model.default_of(node, gen.GEN_ENV)
             res.count("unbound_defaults_checked")
+            if path in case.get("drafted", ()):
+                res.count("redeclared_keys_hold_the_default_while_the_variable_of_the_draft_is_set")
             if known and model.match(dflt, got):
                 res.viol("M-env", "default", "%s: %s (variable %s) should hold its default %r but reads %r; environment %r" % (
                     stage, path, name, dflt, got, case["environ"]))
